@@ -4,8 +4,8 @@ from ..stage import LineStage, replay_line
 from .common import *
 from . import c03
 
-ARTEFACTS = ["G1-consts", "G13-traits"]
-EXTRA_PROPS = [("B3.Props.C16T", "B3/Props/C16T.lean")]   # theorems about the code translated from the sources
+ARTEFACTS = ["G4-listings", "G1-consts", "G13-traits"]
+EXTRA_PROPS = [("B3.Props.Surface", "B3/Props/Surface.lean"), ("B3.Props.C16T", "B3/Props/C16T.lean")]   # theorems about the code translated from the sources
 RULE = ("histories over the trait methods (Update, Reset, FixedOutput, FixedOutputReset, Digest::finalize, ExtendableOutput, "
         "ExtendableOutputReset + XofReader (also: one reader driven by XofReader::read, fill, io::Read and seeks in any order, lengths 0..1024 incl. whole blocks from unaligned positions), KeyInit::new / new_from_slice with keys of every length 0..40, Mac finalize / verify_slice "
         "with good, bit-flipped, truncated and extended tags) interleaved with the inherent methods on the same registers, each followed "
